@@ -223,7 +223,7 @@ template <class F> static std::vector<Outcome> in_child(const std::string &dir, 
     g_pipe_w = pfd[1];
     g_ctx.hang_cb = child_hang_cb;
     g_ctx.hang = HANG_VIOLATION;
-    alarm(20);
+    arm_watchdog(20);
     { int nul = open("/dev/null", O_WRONLY); if (nul >= 0) { dup2(nul, 2); close(nul); } }   // getopt / std::cerr diagnostics
     mkdir(dir.c_str(), 0700);
     if (chdir(dir.c_str()) != 0) _exit(99);
@@ -232,6 +232,7 @@ template <class F> static std::vector<Outcome> in_child(const std::string &dir, 
     _exit(0);
   }
   close(pfd[1]);
+  ChildWait child_wait;
   std::string buf;
   char tmp[65536];
   ssize_t n;
@@ -450,6 +451,7 @@ static Verdict run_C15(const Scn &s) {
   v.case_hash = ch;
   for (size_t k = 0; k < ops.size(); k++) {
     if (k >= hist.size()) {
+      if (WIFEXITED(st) && WEXITSTATUS(st) == 15) { Verdict x; x.skipped = true; x.skip_reason = "unsimulated-blocking"; return x; }   // see on_alarm (main.cpp)
       std::string how = WIFSIGNALED(st) ? "killed by signal " + std::to_string(WTERMSIG(st)) : "exit status " + std::to_string(WEXITSTATUS(st));
       Verdict x = viol("history-process-died@" + ops[k].kind, "operation " + std::to_string(k) + " (" + opdesc(ops[k]) + ") terminated the process (" + how + ") as part of the history, but not when run first in a fresh process");
       x.case_hash = ch;
